@@ -26,6 +26,11 @@ claim('C09',
       'Same symbolic exploration of the real scanner and parser as C03, with the stronger postcondition: token stream accepted by an independent nesting recogniser (for inputs that parse), event stream accepted by an independent recogniser of the event grammar, every token/event/error mark inside the input, start_1 <= end_1 <= start_2 ..., line/column equal to a recount of line breaks in the symbolic input (CR LF once, BOM not counted), mark-delimited text equal to the value for single-line plain scalars, anchors and aliases. The parser alone is additionally driven by every sequence of up to 3 (4) tokens of the 18 kinds fed lazily from a stub source.',
       'Py pipeline only. Trusted: CrossHair/z3, M1/M1b placeholders, the reference recognisers in spec/grammar.py. Token nesting is only demanded of inputs that parse (a stream the parser rejects is by definition outside the documented grammar).')
 
+claim('C08',
+      'Two engines. (E2) The live compiled patterns of Resolver.yaml_implicit_resolvers and SafeConstructor.timestamp_regexp are translated from their sre parse trees into z3 regular expressions and compared with the YAML 1.1 reference languages: language equality per type, pairwise disjointness, first-character index soundness, converter domain, and inclusion of the representers\' output languages - each an unsat query valid for strings of every length, witnesses replayed through safe_load. (E1) The real resolve(), construct_yaml_* and the serializer/emitter style choice are executed symbolically on every plain text of up to 2 (3) characters, on int/float/timestamp templates with free characters and on every int below 10^6, and compared with an independent digit-by-digit evaluator.',
+      'Oracle: spec/yaml11_types.py = the YAML 1.1 type repository restricted to the documented dialect (deviations D1-D4 listed there). Floats are exact rationals under symbolic execution (rounding outside the claim; tolerance on replay). repr(float)/isoformat shapes are modelled as languages. Translator validated against re on the repository scalars on every run. Known findings K1-K4.',
+      technique='SMT regular-language queries on the live patterns (z3 seq/re theory) + bounded symbolic execution of resolver/constructors (CrossHair + z3)')
+
 NA = {
  'C06': 'every comparison is between two artefacts of libyaml (a compiled system .so behind a Cython binding that cannot be rebuilt offline); symbolic values are realised at the extension boundary, so no solver variable survives into the code under comparison',
  'C20': 'asymptotic growth over input sizes: bounded symbolic execution cannot observe doubling and an unbounded cost argument is proof-assistant work; the anchored look-ahead mechanisms are decided as one-step invariants under C09/C18',
